@@ -325,6 +325,55 @@ func extractC09(c *Ctx) error {
 			}
 			return true
 		})
+		// second round: X[i] where i is the key of an enclosing `range Y` over ANOTHER expression
+		// (winner.Balances[i] inside `for i := range request.GetHexAddresses()`), and field access
+		// through an optional (pointer) protobuf field without its nil-safe getter (m.Fees.RelayerFee)
+		{
+			var walk func(n ast.Node, keys map[string]string)
+			walk = func(n ast.Node, keys map[string]string) {
+				ast.Inspect(n, func(x ast.Node) bool {
+					switch v := x.(type) {
+					case *ast.RangeStmt:
+						inner := map[string]string{}
+						for k, y := range keys {
+							inner[k] = y
+						}
+						if id, ok := v.Key.(*ast.Ident); ok && id.Name != "_" {
+							inner[id.Name] = c.Src(v.X)
+						}
+						walk(v.Body, inner)
+						return false
+					case *ast.IndexExpr:
+						if id, ok := v.Index.(*ast.Ident); ok {
+							if over, ok := keys[id.Name]; ok && over != c.Src(v.X) {
+								add("crossindex", v)
+							}
+						}
+					}
+					return true
+				})
+			}
+			walk(fn.decl.Body, map[string]string{})
+			getterCallee := map[*ast.SelectorExpr]bool{}
+			ast.Inspect(fn.decl.Body, func(x ast.Node) bool {
+				if ce, ok := x.(*ast.CallExpr); ok {
+					if se, ok := ce.Fun.(*ast.SelectorExpr); ok && (strings.HasPrefix(se.Sel.Name, "Get") || se.Sel.Name == "String" || se.Sel.Name == "Size") {
+						getterCallee[se] = true
+					}
+				}
+				return true
+			})
+			ast.Inspect(fn.decl.Body, func(x ast.Node) bool {
+				se, ok := x.(*ast.SelectorExpr)
+				if !ok || getterCallee[se] {
+					return true
+				}
+				if inner, ok := se.X.(*ast.SelectorExpr); ok && c09PtrFields(c)[inner.Sel.Name] {
+					add("nilfield", se)
+				}
+				return true
+			})
+		}
 		ast.Inspect(fn.decl.Body, func(n ast.Node) bool {
 			switch v := n.(type) {
 			case *ast.CallExpr:
@@ -686,4 +735,51 @@ func boolInt(b bool) int {
 		return 1
 	}
 	return 0
+}
+
+// c09PtrFields: names of the pointer-typed message fields of the generated protobuf structs under
+// x/*/types (optional sub-messages: nil when absent).
+var c09PtrFieldCache map[string]bool
+
+func c09PtrFields(c *Ctx) map[string]bool {
+	if c09PtrFieldCache != nil {
+		return c09PtrFieldCache
+	}
+	out := map[string]bool{}
+	matches, _ := filepath.Glob(filepath.Join(c.Repo, "x", "*", "types", "*.pb.go"))
+	for _, m := range matches {
+		rel, err := filepath.Rel(c.Repo, m)
+		if err != nil {
+			continue
+		}
+		f, err := c.Parse(rel)
+		if err != nil {
+			continue
+		}
+		ast.Inspect(f, func(n ast.Node) bool {
+			st, ok := n.(*ast.StructType)
+			if !ok {
+				return true
+			}
+			for _, fl := range st.Fields.List {
+				se, ok := fl.Type.(*ast.StarExpr)
+				if !ok {
+					continue
+				}
+				if _, isIdent := se.X.(*ast.Ident); !isIdent {
+					if _, isSel := se.X.(*ast.SelectorExpr); !isSel {
+						continue
+					}
+				}
+				for _, nm := range fl.Names {
+					if ast.IsExported(nm.Name) && !strings.HasPrefix(nm.Name, "XXX_") {
+						out[nm.Name] = true
+					}
+				}
+			}
+			return true
+		})
+	}
+	c09PtrFieldCache = out
+	return out
 }
